@@ -424,6 +424,69 @@ Theorem C11_add_decimal_fits : forall h1 l1 h2 l2 c1 e1 c2 e2,
 Proof. exact add_decimal_fits. Qed.
 Print Assumptions C11_add_decimal_fits.
 
+(* NaN and infinities next to a Decimal128 (formerly a finding: they were
+   treated as 0): the IEEE 754 table.  kind_of reads NaN / Inf sign / finite
+   sign and zero-ness off the exact interpretation of either operand (int,
+   double or decimal); ieee_add / ieee_mul are the table.  Outside: Mod (still
+   collapses non-finite operands to 0), and the sign / payload of a NaN input
+   (the result is always the canonical quiet NaN 0x7C00..) *)
+Theorem C11_add_nonfinite_spec : forall a b ka kb,
+  kind_of a = Some ka -> kind_of b = Some kb -> is_decimal_value a || is_decimal_value b = true ->
+  Add a b = match ieee_add ka kb with Some r => Ok r | None => add_finite a b end.
+Proof. exact add_nonfinite_spec. Qed.
+Print Assumptions C11_add_nonfinite_spec.
+
+Theorem C11_mul_nonfinite_spec : forall a b ka kb,
+  kind_of a = Some ka -> kind_of b = Some kb -> is_decimal_value a || is_decimal_value b = true ->
+  Mul a b = match ieee_mul ka kb with Some r => Ok r | None => mul_finite a b end.
+Proof. exact mul_nonfinite_spec. Qed.
+Print Assumptions C11_mul_nonfinite_spec.
+
+(* the table answers with a Decimal128 special value ... *)
+Theorem C11_ieee_result_special : forall x y r,
+  (ieee_add x y = Some r \/ ieee_mul x y = Some r) ->
+  (r = d128_nan \/ r = d128_pos_inf \/ r = d128_neg_inf) /\ num_rank r = 3.
+Proof. exact ieee_result_special. Qed.
+Print Assumptions C11_ieee_result_special.
+
+(* ... exactly when an operand is not finite *)
+Theorem C11_ieee_table_domain : forall x y,
+  (ieee_add x y = None <-> exists n1 z1 n2 z2, x = KFin n1 z1 /\ y = KFin n2 z2) /\
+  (ieee_mul x y = None <-> exists n1 z1 n2 z2, x = KFin n1 z1 /\ y = KFin n2 z2).
+Proof. exact ieee_table_domain. Qed.
+Print Assumptions C11_ieee_table_domain.
+
+(* Decimal128 x Decimal128 on the full domain: finite operands give the exact
+   result or are rejected, otherwise the IEEE table *)
+Theorem C11_mul_decimal_total : forall h1 l1 h2 l2 r,
+  Mul (VDecimal h1 l1) (VDecimal h2 l2) = Ok r ->
+  (exists c1 e1 c2 e2, dec_decode h1 l1 = DFin c1 e1 /\ dec_decode h2 l2 = DFin c2 e2 /\
+     (r = VMissing \/
+      exists h l c' e', r = VDecimal h l /\ dec_decode h l = DFin c' e' /\ same_decimal (c1 * c2) (e1 + e2) c' e')) \/
+  (exists ka kb, kind_of (VDecimal h1 l1) = Some ka /\ kind_of (VDecimal h2 l2) = Some kb /\ ieee_mul ka kb = Some r).
+Proof. exact mul_decimal_total. Qed.
+Print Assumptions C11_mul_decimal_total.
+
+Theorem C11_add_decimal_total : forall h1 l1 h2 l2 r,
+  Add (VDecimal h1 l1) (VDecimal h2 l2) = Ok r ->
+  (exists c1 e1 c2 e2, dec_decode h1 l1 = DFin c1 e1 /\ dec_decode h2 l2 = DFin c2 e2 /\
+     let e := Z.min e1 e2 in
+     let c := c1 * zpow 10 (e1 - e) + c2 * zpow 10 (e2 - e) in
+     (r = VMissing \/
+      exists h l c' e', r = VDecimal h l /\ dec_decode h l = DFin c' e' /\ same_decimal c e c' e')) \/
+  (exists ka kb, kind_of (VDecimal h1 l1) = Some ka /\ kind_of (VDecimal h2 l2) = Some kb /\ ieee_add ka kb = Some r).
+Proof. exact add_decimal_total. Qed.
+Print Assumptions C11_add_decimal_total.
+
+Example C11_ex_nonfinite :
+  Add d128_pos_inf (VInt32 5) = Ok d128_pos_inf /\
+  Add d128_pos_inf d128_neg_inf = Ok d128_nan /\
+  Mul (VInt64 0) d128_neg_inf = Ok d128_nan /\
+  Mul (VInt32 (-2)) d128_pos_inf = Ok d128_neg_inf /\
+  Mul (VDouble 9221120237041090561) (VDecimal 3476778912330022912 1) = Ok d128_nan /\
+  Add (VDouble 18442240474082181120) (VDecimal 3476778912330022912 1) = Ok d128_neg_inf.
+Proof. exact nonfinite_examples. Qed.
+
 (* the former counter-examples *)
 Example C11_ex_promotion_and_rejection :
   Add (VInt32 2147483647) (VInt32 1) = Ok (VInt64 2147483648) /\
